@@ -21,7 +21,7 @@ MAX_TRACES = 40000
 def new_state():
     return {"pos": ENTRY, "posobjs": {}, "soft": {}, "origin": {}, "children": [],
             "rewound": False, "m_viol": [], "moved_once": False, "cut": False,
-            "dirty": False, "r_viol": []}
+            "dirty": False, "r_viol": [], "parsed": 0, "later_child_failed": None}
 
 
 def errobj(i):
@@ -209,6 +209,8 @@ class TSEngine(tf.Engine):
                 if p[0] == "posobj" and p[1] in ts["posobjs"]:
                     ts["dirty"] = False
                     if ts["posobjs"][p[1]] == ENTRY:
+                        ts["later_child_failed"] = None
+                    if ts["posobjs"][p[1]] == ENTRY:
                         if ts["pos"] == MOVED:
                             ts["rewound"] = True
                         ts["pos"] = ENTRY
@@ -229,10 +231,13 @@ class TSEngine(tf.Engine):
                     # another child is tried after a child failed, without restoring the position:
                     # relies on the failed child having restored it (clause R)
                     ts["r_viol"].append(t.get("ln"))
+                ts["parsed"] = ts.get("parsed", 0) + 1
                 ok_ts = copy.deepcopy(ts)
                 ok_ts["pos"] = MOVED
                 ok_ts["moved_once"] = True
                 err_ts = ts
+                # a child that is not the first one parsed in this invocation fails (clause L)
+                err_ts["later_child_failed"] = t.get("ln") if ts["parsed"] > 1 else None
                 n = self.fresh()
                 e = self.new_error(err_ts, UNKNOWN, ("child", n))
                 err_ts["children"].append(e[1])
